@@ -404,6 +404,11 @@ def models_ob():
     return FnObligation("C09/bounded/engineA_models_and_assumed_contracts_agree_with_jax", run, [])
 
 
+def _ctor_sentinels():
+    from contracts import c08
+    return [c08.ctor_sentinels(cls, dim, prefix="C09") for cls in ("CubicMeshPDEStatio", "CubicMeshPDENonStatio") for dim in (1, 2)]
+
+
 def obligations(tier):
     obs = [models_ob()]
     for which, rars in CONSUMERS:
@@ -413,4 +418,6 @@ def obligations(tier):
             obs.append(side_ob(which, rar))
     for l in LEMMAS:
         obs.append(lemma_ob(l))
+    # the step contracts assume Inv(idx, b, n_eff) with the sentinel of the index's own batch size: the constructors establish it
+    obs += _ctor_sentinels()
     return obs
